@@ -133,15 +133,35 @@ def fvec(v: c19vec.typing.Vec = None, n: int = 2):
     """
     return n
 '''
+# a compound annotation that admits str, with a string default
+ENTRIES["ClsUnion"] = '''class ClsUnion(object):
+    """
+    ClsUnion summary
+
+    :cvar mode: the mode
+    :cvar n: the n
+    """
+
+    def __init__(self, mode: Union[str, int] = "fast", n: int = 3):
+        """
+        init doc
+
+        :param mode: the mode
+        :param n: the n
+        """
+        self.mode = mode
+'''
 EXPECT_ANN = {"fann": {"p": "int", "q": "float"}, "fvec": {"v": "c19vec.typing.Vec", "n": "int"}, "ClsAnn": {"n": "int", "name": "str"}}
-EXPECT = {"fvec": [("v", None), ("n", 2)], "ClsInherits": [("depth", 2), ("width", 8)], "ClsInitLater": [("size", 4), ("ratio", 0.5), ("label", "l")], "ClsPlain": [("x", 5), ("y", "s")], "ClsAnn": [("n", 3), ("name", "b")], "fplain": [("p", None), ("q", 3)],
+EXPECT = {"ClsUnion": [("mode", "fast"), ("n", 3)], "fvec": [("v", None), ("n", 2)], "ClsInherits": [("depth", 2), ("width", 8)], "ClsInitLater": [("size", 4), ("ratio", 0.5), ("label", "l")], "ClsPlain": [("x", 5), ("y", "s")], "ClsAnn": [("n", 3), ("name", "b")], "fplain": [("p", None), ("q", 3)],
           "fann": [("p", 1), ("q", 0.5)]}
 TYPES = ("class", "function", "argparse")
 TEMPLATES = ("{name}Config", "Gen{name}")
 PREPENDS = {"none": None, "constant": "CONST = 1\n", "import": "import sys\n", "stmt_then_import": '__author__ = "gen"\nimport sys\n',
             "docstring_then_import": '"""Generated module."""\nimport sys\n',
             # aliased imports whose text starts like an import line of the imports file (import os / from typing import Optional)
-            "aliased_imports": "import os as _os\nfrom typing import Optional as Opt\n"}
+            "aliased_imports": "import os as _os\nfrom typing import Optional as Opt\n",
+            # a module docstring followed by something that is not an import / by nothing at all
+            "docstring_then_stmt": '"""Generated module."""\nVERSION = 1\n', "docstring_only": '"""Generated module."""\n'}
 IMPORT_FILES = {"none": None, "zero": "VALUE = 1\n", "one": "import os\n\nVALUE = 1\n",
                 "three": "import os\nfrom typing import Optional\nimport json as j\n\nVALUE = 1\n",
                 # given as a dotted path through an alias that the prepend imports (resolved via the prepend's symbols)
@@ -230,7 +250,7 @@ class C19(core.Check):
         if case.get("mapform"):
             base["mapform"] = case["mapform"]
         try:
-            src = "\n\n".join(ENTRIES[e] for e in case["mapping"])
+            src = "from typing import Union\n\n\n" + "\n\n".join(ENTRIES[e] for e in case["mapping"])
             src += "\n\n" + MAPFORMS[case.get("mapform", "dict")] % {
                 "items": ", ".join("%r: %s" % (e, e) for e in case["mapping"]),
                 "pairs": ", ".join("(%r, %s)" % (e, e) for e in case["mapping"]),
@@ -361,7 +381,7 @@ class C19(core.Check):
                 import argparse as _ap
                 import typing
 
-                ns.update({"Optional": typing.Optional, "loads": json.loads})
+                ns.update({"Optional": typing.Optional, "Union": typing.Union, "loads": json.loads})
                 if "fvec" in case["mapping"]:  # the generated module names the user's package; gen is not asked to import it
                     importlib.import_module("c19vec.typing")
                     ns["c19vec"] = sys.modules["c19vec"]
